@@ -63,6 +63,16 @@ CHECKS = {
              "each step, and a freshly opened store is scanned at the end. Exploration-level.",
         note="Trusted: dict / merge model; logical clock replacing time.time_ns inside the cache; sequential use only; prefix-free keys.",
         design="3/C16"),
+    "C17": dict(
+        category="fault_enumeration",
+        technique="generated set sequences x exhaustive enumeration of crash points (every prefix of the recorded raw file-system trace) x loss choices, each crash image reopened; plus real SIGKILL of a child at every operation boundary",
+        text="For Hypothesis-generated sequences of sets the raw file-system trace (mkdir/open-truncate/write/fsync/close) is "
+             "recorded; every prefix x {none, all, truncation-only, byte-prefix} loss is materialised and reopened with a fresh store: "
+             "completed sets must read back exactly, no key other than the in-flight one may fail or change. A child process killed at "
+             "every traced operation covers real process death. Fault enumeration is exhaustive per sequence; sequences are sampled.",
+        note="Trusted: the stated persistence model (fsync makes content + namespace durable; unsynced data may be lost wholly/partly; "
+             "unsynced truncation may persist); trace fidelity (raw-level FileIO tracing, cross-checked with strace by hand).",
+        design="3/C17"),
 }
 
 NOT_APPLICABLE = {
